@@ -113,6 +113,9 @@ void Exec::release_all() {
       ptr[i] = nullptr;
     }
   }
+  if (ptmp) sim_release(ptmp);
+  ptmp = nullptr;
+  ptmp_cap = 0;
   for (uint8_t* b : group_blocks) sim_release(b);
   group_blocks.clear();
   if (!base) {
@@ -452,8 +455,19 @@ void Exec::run_call(int idx) {
       to = (int)((h >> 8) & 7);
       tp = (h >> 16) & 1 ? SIM_PLACE_OFFSET : SIM_PLACE_FLUSH_HIGH;
     }
-    tmp = (uint8_t*)sim_alloc(tmpb, tp, to, tf, mix64(env.mem_salt, (uint64_t)idx * 31 + 5), -2 - idx);
-    n_prefill[tf % SIM_FILL_NKINDS]++;
+    if (P.persist_tmp && !env.calm && ptmp && tmpb <= ptmp_cap) {
+      // the caller's one scratch buffer, with whatever the previous calls left in it
+      tmp = ptmp;
+      n_tmp_reused++;
+    } else {
+      tmp = (uint8_t*)sim_alloc(tmpb, tp, to, tf, mix64(env.mem_salt, (uint64_t)idx * 31 + 5), -2 - idx);
+      n_prefill[tf % SIM_FILL_NKINDS]++;
+      if (P.persist_tmp && !env.calm) {
+        if (ptmp) sim_release(ptmp);
+        ptmp = tmp;
+        ptmp_cap = tmpb;
+      }
+    }
   }
 
   // frame: what lies outside the declared output extent must not change
@@ -714,7 +728,7 @@ void Exec::run_call(int idx) {
       if (!dup) sim_release(twin_copy[k]);
     }
   }
-  if (tmp) sim_release(tmp);
+  if (tmp && tmp != ptmp) sim_release(tmp);
 }
 
 void Exec::run_range(int task) {
